@@ -34,7 +34,17 @@ def showSegs (ts : List Str) : String :=
 def showMws (ms : List Nat) : String :=
   if ms.isEmpty then "-" else ",".intercalate (ms.map toString)
 
+/-- Harness convention: a tracing middleware whose id is 6 or 7 mod 8 does not call `next.run`
+(6: answers itself, 7: returns `Err`); the others forward. -/
+def isStopper (m : Nat) : Bool := m % 8 = 6 || m % 8 = 7
+
+def untilStopper : List Nat → List Nat × Bool
+  | [] => ([], false)
+  | m :: rest => if isStopper m then ([m], true) else let (l, b) := untilStopper rest; (m :: l, b)
+
 def showFound (path : Str) (f : Found) : String :=
+  let (ran, stopped) := untilStopper f.entry.mws
+  if stopped then s!"stopped mws {showMws ran}" else
   let base := s!"handler {f.entry.raw} mws {showMws f.entry.mws}"
   match f.coll with
   | .exact => base
@@ -70,6 +80,9 @@ def hintFor (hints : List Char) : Decoder → Bool
 structure St where
   r : Router.Router := {}
   store : Store := []
+  lockKind : Nat := 0      -- 0 Mutex, 1 RwLock (both poison), 2/3 tokio (never poison), 4 user lock that can be told to fail
+  poisoned : Bool := false
+  lockFails : Bool := false
 
 def nullJson : Bytes := "null".toUTF8.toList
 
@@ -84,10 +97,17 @@ def showDOut (body canon : Bytes) : DOut → String
     else "called ?"
   | .err e => s!"err {e.code}"
 
+/-- callback behaviours 1..3 panic (String, &'static str, non-string payload); 0 and 4 (slow) answer -/
+def isPanic (cb : String) : Bool := cb = "1" || cb = "2" || cb = "3"
+
+/-- "/a/b" ↦ "/a": where the twin harness mounts the registry / struct for route path "/a/b" -/
+def parentOf (p : Str) : Str := (p.reverse.dropWhile (· ≠ '/')).drop 1 |>.reverse
+
 def stepR (r : Router.Router) (ws : List String) : Router.Router × String :=
   let F := Gen.routerFacts
   match ws with
   | ["reset", _] => ({}, "")
+  | ["clone", _] => (r, "")      -- `Router::clone`: same routes, mounts and middleware
   | ["mw", _, n] => (r.apply F (.middleware (natOf n)), "")
   | ["route", idx, p, n] =>
     match strOfHex p with
@@ -131,7 +151,8 @@ def stepR (r : Router.Router) (ws : List String) : Router.Router × String :=
     match strOfHex p with
     | some p => (r, idx ++ " " ++ showSegs (jsonPointerParse p))
     | none => (r, idx ++ " bad-op")
-  | ["twin", idx, kind, blocking, nmw, bfmt, _body, hints, cres, ccode, _order, _voff, _qfmt, query, _rid] =>
+  | ["twin", idx, kind, blocking, nmw, bfmt, _body, hints, cres, ccode, _order, _voff, _qfmt, query, _rid,
+     _notify, _ver, _reserved, _reqec, _trfmt, cb, tpath, _srv, _decoys] =>
     match gateOf kind with
     | none => (r, idx ++ " bad-op")
     | some g =>
@@ -143,17 +164,20 @@ def stepR (r : Router.Router) (ws : List String) : Router.Router × String :=
         | none => "-"
         | some gate =>
           -- a struct mount first checks that the path is below its root ("/t" in the harness)
-          if kind = "struct" && (relativePointer "/t".toList ((strOfHex query).getD [])).isNone then "rej 6"
+          if kind = "struct" && (relativePointer (parentOf ((strOfHex tpath).getD [])) ((strOfHex query).getD [])).isNone then "rej 6"
           -- … and reads (no decoding) when the body is empty
           else if kind = "struct" && Gen.handlerFacts.structEmptyBodyIsRead && _body = "-" then
-            (if cres = "ok" then "ok" else s!"rej {SErr.execution.code}")
+            (if isPanic cb then "PANIC" else if cres = "ok" then "ok" else s!"rej {SErr.execution.code}")
           else
           match gate.lookup (natOf bfmt) with
           | none => s!"rej {INVALID_BODY}"
           | some d =>
             if !hintFor hints.toList d then "fail"
+            else if isPanic cb then "PANIC"
             else if cres = "ok" then "ok"
-            else if kind = "struct" then s!"rej {SErr.execution.code}" else s!"rej {natOf ccode}"
+            else if kind = "struct" then s!"rej {SErr.execution.code}"
+            else if natOf ccode = 0 then "ok"   -- a closure error carrying `ErrorCode::Ok` is framed with ec = 0
+            else s!"rej {natOf ccode}"
       -- how many of the `nmw` links are shown the caller's context (`Next::ctx()`)
       let links := if Gen.handlerFacts.nextForwardsCtx then natOf nmw else 0
       (r, s!"{idx} {cls} exec {exec} links {links}")
@@ -161,7 +185,8 @@ def stepR (r : Router.Router) (ws : List String) : Router.Router × String :=
 
 def step (st : St) (ws : List String) : St × String :=
   match ws with
-  | ["dreset", _, _lockKind] => ({ st with store := [] }, "")
+  | ["dreset", _, lockKind] => ({ st with store := [], lockKind := natOf lockKind, poisoned := false, lockFails := false }, "")
+  | ["dlockfail", _, b] => ({ st with lockFails := (b = "1") }, "")
   | ["dstruct", idx, root, p, bfmt, body, canon, hints, whole] =>
     match strOfHex root, strOfHex p, bytesOfHex body, bytesOfHex canon with
     | some root, some p, some body, some canon =>
@@ -169,13 +194,21 @@ def step (st : St) (ws : List String) : St × String :=
       if !mountMatches n p then (st, idx ++ " none")
       else
         let F := Gen.handlerFacts
-        match structCall Gen.routerFacts.stackSegs F.structGate F.structEmptyBodyIsRead n p (natOf bfmt) body (hintFor hints.toList) with
+        match structCall Gen.routerFacts.stackSegs F.structGate F.structEmptyBodyIsRead n p (natOf bfmt) body (hintFor hints.toList)
+            (st.poisoned || (st.lockKind = 4 && st.lockFails)) with
         | .notBelowRoot => (st, idx ++ " err 6")
         | .invalidBody => (st, s!"{idx} err {INVALID_BODY}")
         | .undecodable => (st, idx ++ " fail")
+        | .lockError => (st, idx ++ " err 5")
         | .handle segs hasBody =>
           let (o, store') := derivedHandle demoSpec nullJson st.store segs (if hasBody then some canon else none) (whole = "1")
-          ({ st with store := store' }, idx ++ " " ++ showDOut body canon o)
+          match o with
+          | .called p _ =>
+            if p = ["boom".toList] then
+              -- the method panics while the lock guard is held: std locks are poisoned from now on
+              ({ st with poisoned := st.poisoned || st.lockKind < 2 }, idx ++ " PANIC")
+            else ({ st with store := store' }, idx ++ " " ++ showDOut body canon o)
+          | _ => ({ st with store := store' }, idx ++ " " ++ showDOut body canon o)
     | _, _, _, _ => (st, idx ++ " bad-op")
   | _ => let (r', o) := stepR st.r ws; ({ st with r := r' }, o)
 
